@@ -39,3 +39,22 @@ pub fn laws() -> Value {
     }
     json!({"laws_ok": bad.is_empty(), "aliases_ok": bad.is_empty(), "failed": bad, "cases": pairs})
 }
+
+
+/// the Identity each built-in constructor declares, read off rustc's own type names: probes with an argument that is itself an alias
+/// (String -> str) and with a leaf argument (u8), so that `Identity = T` can be told from `Identity = T::Identity`
+pub fn identity_probe() -> Value {
+    use scale_info::TypeInfo;
+    use std::any::type_name as tn;
+    fn id<T: TypeInfo + ?Sized + 'static>() -> &'static str { tn::<T::Identity>() }
+    let mut m = serde_json::Map::new();
+    macro_rules! p { ($k:expr, $a:ty, $l:ty) => { m.insert($k.to_string(), json!({"alias_arg": id::<$a>(), "leaf_arg": id::<$l>(), "self_alias": tn::<$a>(), "self_leaf": tn::<$l>()})); }; }
+    p!("Box", Box<String>, Box<u8>); p!("Rc", Rc<String>, Rc<u8>); p!("Arc", Arc<String>, Arc<u8>); p!("Ref", &'static String, &'static u8); p!("RefMut", &'static mut String, &'static mut u8);
+    p!("Vec", Vec<String>, Vec<u8>); p!("VecDeque", VecDeque<String>, VecDeque<u8>); p!("Slice", [String], [u8]); p!("Phantom", PhantomData<String>, PhantomData<u8>);
+    p!("Option", Option<String>, Option<u8>); p!("BTreeSet", std::collections::BTreeSet<String>, std::collections::BTreeSet<u8>); p!("BinaryHeap", std::collections::BinaryHeap<String>, std::collections::BinaryHeap<u8>);
+    p!("Cow", std::borrow::Cow<'static, String>, std::borrow::Cow<'static, u8>); p!("Compact", scale::Compact<u32>, scale::Compact<u8>); p!("Range", std::ops::Range<String>, std::ops::Range<u8>);
+    p!("RangeInclusive", std::ops::RangeInclusive<String>, std::ops::RangeInclusive<u8>);
+    p!("String", String, String); p!("Str", str, str); p!("Duration", std::time::Duration, std::time::Duration);
+    m.insert("names".to_string(), json!({"String": tn::<String>(), "str": tn::<str>(), "u8": tn::<u8>(), "unit_phantom": tn::<PhantomData<()>>()}));
+    Value::Object(m)
+}
